@@ -121,12 +121,21 @@ fn t3(s: &str, p: &str, o: &str) -> (String, String, String) {
 pub fn configs() -> Vec<Config> {
     let sub_rule = (vec![tp(v("x"), ty(), c("Sub"))], vec![tp(v("x"), ty(), c("Super"))]);
     let chain = vec![(vec![tp(v("x"), ty(), c("Sub"))], vec![tp(v("x"), ty(), c("Mid"))]), (vec![tp(v("x"), ty(), c("Mid"))], vec![tp(v("x"), ty(), c("Super"))])];
+    let chain2 = chain.clone();
     let core = |name: &'static str, alphabet: [Lex; 3], query: Vec<TP>, rules: Vec<(Vec<TP>, Vec<TP>)>| Config { name, family: "core", alphabet: alphabet.into_iter().map(one).collect(), query, rules, static_part: None, variant: Variant::Default };
     let spo = || vec![tp(v("s"), v("p"), v("o"))];
     let mut fat: Vec<Lex> = Vec::new();
     for i in 0..FAT_SUBJECTS {
         fat.push(t3(&format!("x{}", i), "a", "Super"));
         fat.push(t3(&format!("x{}", i), "p", "c"));
+    }
+    // the same fat event, but the queried class is only DERIVED (subclass rule / two-step chain):
+    // a firing whose window holds >= 64 base facts goes through the rule engine, so any
+    // size-dependent choice of materialisation strategy is crossed together with reasoning
+    let mut fat_sub: Vec<Lex> = Vec::new();
+    for i in 0..FAT_SUBJECTS {
+        fat_sub.push(t3(&format!("x{}", i), "a", "Sub"));
+        fat_sub.push(t3(&format!("x{}", i), "p", "c"));
     }
     vec![
         core("one_pattern_no_rules", [t3("a", "a", "Super"), t3("b", "a", "Super"), t3("a", "a", "Sub")], vec![tp(v("s"), ty(), c("Super"))], vec![]),
@@ -153,6 +162,8 @@ pub fn configs() -> Vec<Config> {
         // an event of 140 triples (70 subjects x {type Super, p c}): the join's left side exceeds
         // BIND_JOIN_MIN_CHUNK = 64 rows and splits unevenly (64 + 6) on a 2-thread pool
         Config { name: "join_fat_event", family: "fat", alphabet: vec![fat, one(t3("x0", "a", "Super")), one(t3("y", "p", "c"))], query: vec![tp(v("s"), ty(), c("Super")), tp(v("s"), c("p"), v("o"))], rules: vec![], static_part: None, variant: Variant::Default },
+        Config { name: "join_fat_event_subclass", family: "fat", alphabet: vec![fat_sub.clone(), one(t3("x0", "a", "Sub")), one(t3("y", "p", "c"))], query: vec![tp(v("s"), ty(), c("Super")), tp(v("s"), c("p"), v("o"))], rules: vec![sub_rule.clone()], static_part: None, variant: Variant::Default },
+        Config { name: "one_pattern_fat_event_chain", family: "fat", alphabet: vec![fat_sub, one(t3("x0", "a", "Mid")), one(t3("y", "a", "Sub"))], query: vec![tp(v("s"), ty(), c("Super"))], rules: chain2.clone(), static_part: None, variant: Variant::Default },
     ]
 }
 
@@ -623,6 +634,9 @@ fn family_case(ctx: &Ctx, out: &mut ShardOut, op: &str, w: (usize, usize), cfg: 
         "fat" => {
             if exp.iter().any(|f| f.len() > 64) {
                 out.count("fat_streams_with_a_firing_of_more_than_64_join_rows", 1);
+            }
+            if !cfg.rules.is_empty() && exp.iter().any(|f| f.len() >= 64) {
+                out.count("fat_streams_with_a_firing_of_64_or_more_rows_that_need_a_rule", 1);
             }
             if contents.windows(2).any(|p| p[0].contains(&0) && !p[1].contains(&0)) {
                 out.count("fat_streams_where_the_fat_event_is_evicted", 1);
